@@ -142,7 +142,7 @@ func Run(r *core.Run) {
 	}
 	// (the anchor origin is author-chosen JSON of any type; whole numbers beyond 2^53 and 2^64 exercise the number formatting of the canonical form)
 	origins := []any{nil, "origin.example", M{"a": 1.0, "b": []any{"x"}}, 2e19, M{"n": []any{4611686018427387904.0, 0.1}},
-		"line\u2028separator\u2029 & <html> \u007f", // characters that JSON writers other than JCS escape
+		"line\u2028separator\u2029 & <html> \u007f",                                          // characters that JSON writers other than JCS escape
 		M{"\ufb33": 1.0, "\U0001F600": 2.0, "\ufb33a": M{"\U0001F600a": "x", "\uffff": "y"}}} // member names whose UTF-16 order differs from their code point order
 	rec, upd := keys.New("Ed25519", 81), keys.New("P-256", 81)
 	type reqT struct {
